@@ -793,6 +793,92 @@ def check_simulation(case, wn, col):
     return None
 
 
+# ------------------------------------------------------------------------------------------- revisions
+class Prefixed(Collector):
+    """reports into another collector under a bucket prefix"""
+    def __init__(self, prefix, base):
+        self.prefix = prefix
+        self.fails = base.fails
+        self.tags = base.tags
+
+    def add(self, bucket, detail):
+        self.fails.append((self.prefix + bucket, detail))
+
+
+def explicit_refs(case):
+    return {pidx for j in case['junctions'] for _b, pidx, _c in j['demands'] if pidx is not None}
+
+
+def apply_revision(case, wn, rev):
+    """one edit of the *same* model object after the metrics have been evaluated on it; returns the revised spec.
+    ['mult', pidx, m]      pattern.multipliers = m                      (in place)
+    ['readd', pidx, m]     remove_pattern(name); add_pattern(name, m)   (only patterns without registered usage)
+    ['remove', pidx]       remove_pattern(name)                         (only patterns nothing refers to explicitly)
+    ['default', name]      options.hydraulic.pattern = name
+    ['retarget', j, k, pidx]  junction j, demand entry k: pattern_name = name of pattern pidx (never None: the
+                              setter stores None as 'no pattern', the constructors as 'default pattern')"""
+    import copy
+    from wntr.network.elements import Pattern
+    case = copy.deepcopy(case)
+    case.pop('revisions', None)
+    op = rev[0]
+    if op == 'mult':
+        p = case['patterns'][rev[1]]
+        wn.get_pattern(p['name']).multipliers = list(rev[2])
+        p['mult'] = list(rev[2])
+    elif op == 'readd':
+        p = case['patterns'][rev[1]]
+        wn.remove_pattern(p['name'])
+        if p['wrap']:
+            wn.add_pattern(p['name'], list(rev[2]))
+        else:
+            wn.add_pattern(p['name'], Pattern(p['name'], multipliers=list(rev[2]), wrap=False))
+        p['mult'] = list(rev[2])
+    elif op == 'remove':
+        idx = rev[1]
+        wn.remove_pattern(case['patterns'][idx]['name'])
+        case['patterns'].pop(idx)
+        for j in case['junctions']:
+            for d in j['demands']:
+                if d[1] is not None and d[1] > idx:
+                    d[1] -= 1
+    elif op == 'default':
+        wn.options.hydraulic.pattern = rev[1]
+        case['default_pattern'] = rev[1]
+    elif op == 'retarget':
+        _op, j, k, pidx = rev
+        ts = wn.get_node(jname(j)).demand_timeseries_list[k]
+        ts.pattern_name = case['patterns'][pidx]['name']
+        case['junctions'][j]['demands'][k][1] = pidx
+    else:
+        raise ValueError(op)
+    return case
+
+
+def check_revisions(case, wn, col, tags):
+    """the demand formulas on the model as it is after each revision (a history of one model object)"""
+    cur = case
+    for rev in case.get('revisions') or []:
+        op = rev[0]
+        tags.add('revision:' + op)
+        if op in ('readd', 'remove') and cur['patterns'][rev[1]]['name'] == cur['default_pattern'] and \
+                any(d[1] is None and d[0] != 0.0 for j in cur['junctions'] for d in j['demands']):
+            tags.add('revision:%s_default_in_use' % op)
+        try:
+            cur = apply_revision(cur, wn, rev)
+        except Exception as e:
+            return 'revision %r refused: %s' % (rev[:2], type(e).__name__)
+        pc = Prefixed('after_revision/%s/' % op, col)
+        check_expected_demand(cur, wn, pc)
+        check_average(cur, wn, pc)
+        if case.get('simulate'):
+            wn.reset_initial_values()
+            why = check_simulation(cur, wn, pc)
+            if why:
+                return why
+    return None
+
+
 # buckets of the two predicted defects: reported only when nothing else fails in the same case, so that they
 # cannot mask a different root cause
 PREDICTED = ('expected_demand/pattern_start_ignored', 'average_expected_demand/period_is_24h')
@@ -881,6 +967,12 @@ def check(case):
             tags.add('sim_inconclusive')
             if not col.fails:
                 return inconclusive(why, tags | col.tags)
+    if case.get('revisions'):
+        why = check_revisions(case, wn, col, tags)
+        if why:
+            tags.add('revision_inconclusive')
+            if not col.fails:
+                return inconclusive(why, tags | col.tags)
     tags |= col.tags
     if col.fails:
         first = [f for f in col.fails if f[0] not in PREDICTED] or col.fails
@@ -951,6 +1043,7 @@ def strategy(draw, tier='quick'):
             'duration': rep * nsteps, 'interpolation': bool(interp)}
     dm = draw(st.one_of(st.just(1.0), _f(0.1, 3.0)))
 
+    free_default = draw(st.booleans())
     nj = draw(st.integers(1, 5))
     nt = draw(st.integers(0, 2))
     nr = draw(st.integers(1, 2))
@@ -960,6 +1053,8 @@ def strategy(draw, tier='quick'):
         dem = []
         for _ in range(nd):
             pidx = draw(st.one_of(st.none(), st.integers(0, npat - 1), st.integers(0, npat - 1)))
+            if free_default and pidx is not None and patterns[pidx]['name'] == dp:
+                pidx = None         # the default pattern is then only used through the default
             dem.append([draw(_base), pidx, draw(_cat)])
         junctions.append({'elev': draw(st.one_of(_f(0.0, 120.0), st.sampled_from([0.0, 10.0]), _f(-20.0, 0.0))),
                           'demands': dem})
@@ -1093,7 +1188,79 @@ def strategy(draw, tier='quick'):
         'R': draw(st.one_of(st.none(), st.none(), _f(1e-6, 1e-4))),
         'query': query, 'cost_tables': cost_tables, 'rot': draw(st.integers(0, 5)), 'simulate': simulate,
     }
+    if draw(st.integers(0, 2)) == 0:
+        case['revisions'] = _draw_revisions(draw, case)
     return case
+
+
+def _new_mult(draw, cur, pidx):
+    """new multipliers for pattern pidx that keep the common period within MAX_PERIOD_STEPS"""
+    ts = cur['time']['pattern_timestep']
+    p = cur['patterns'][pidx]
+    lo = 1 if p['wrap'] else 2
+    n = draw(st.one_of(st.just(len(p['mult'])), st.integers(lo, 14), st.sampled_from([5, 7, 9, 24])))
+
+    def steps(k):
+        L = DAY
+        for i, q in enumerate(cur['patterns']):
+            L = _lcm(L, (k if i == pidx else len(q['mult'])) * ts)
+        return L // ts
+    while n > lo and steps(n) > MAX_PERIOD_STEPS:
+        n -= 1
+    if steps(n) > MAX_PERIOD_STEPS:
+        n = len(p['mult'])
+    return draw(st.lists(_mult, min_size=n, max_size=n))
+
+
+def _draw_revisions(draw, case):
+    import copy
+    cur = copy.deepcopy(case)
+    used_at_build = explicit_refs(case)       # these have a registered usage: WNTR refuses to remove them
+    revs = []
+    for _ in range(draw(st.integers(1, 2))):
+        npat = len(cur['patterns'])
+        free = [i for i in range(npat) if cur['patterns'][i]['name'] not in
+                {case['patterns'][k]['name'] for k in used_at_build}]
+        unref = [i for i in free if i not in explicit_refs(cur)]
+        dflt = [i for i in free if cur['patterns'][i]['name'] == cur['default_pattern']]
+        ops = ['mult', 'default', 'retarget']
+        if free:
+            ops += ['readd', 'readd']
+        if dflt:
+            ops += ['readd_default', 'readd_default', 'readd_default']
+        if unref and npat > 1:
+            ops += ['remove']
+        op = draw(st.sampled_from(ops))
+        if op == 'mult':
+            pidx = draw(st.integers(0, npat - 1))
+            rev = ['mult', pidx, _new_mult(draw, cur, pidx)]
+        elif op in ('readd', 'readd_default'):
+            pidx = draw(st.sampled_from(dflt if op == 'readd_default' else free))
+            rev = ['readd', pidx, _new_mult(draw, cur, pidx)]
+        elif op == 'remove':
+            rev = ['remove', draw(st.sampled_from(unref))]
+        elif op == 'default':
+            rev = ['default', draw(st.sampled_from([p['name'] for p in cur['patterns']] + [None, '1']))]
+        else:
+            j = draw(st.integers(0, len(cur['junctions']) - 1))
+            k = draw(st.integers(0, len(cur['junctions'][j]['demands']) - 1))
+            rev = ['retarget', j, k, draw(st.integers(0, npat - 1))]
+        revs.append(rev)
+        # the spec after this revision (model-free part of apply_revision)
+        if rev[0] in ('mult', 'readd'):
+            cur['patterns'][rev[1]]['mult'] = list(rev[2])
+        elif rev[0] == 'remove':
+            idx = rev[1]
+            cur['patterns'].pop(idx)
+            for jn in cur['junctions']:
+                for d in jn['demands']:
+                    if d[1] is not None and d[1] > idx:
+                        d[1] -= 1
+        elif rev[0] == 'default':
+            cur['default_pattern'] = rev[1]
+        else:
+            cur['junctions'][rev[1]]['demands'][rev[2]][1] = rev[3]
+    return revs
 
 
 def _mini(n, pstart, ts=3600):
